@@ -189,12 +189,16 @@ func (c *FnCtx) checkFrame() {
 			continue
 		}
 		// only refs that existed before the call matter (fresh objects are free)
-		var excl []Term
-		for _, r := range refs {
-			excl = append(excl, not(eq("q$r", r)))
+		mk := func(q Term) Term {
+			var excl []Term
+			for _, r := range refs {
+				excl = append(excl, not(eq(q, r)))
+			}
+			excl = append(excl, app("<=", q, c.get(c.entry, "$alloc")))
+			return implies(and(excl...), eq(app("select", post, q), app("select", pre, q)))
 		}
-		excl = append(excl, app("<=", "q$r", c.get(c.entry, "$alloc")))
-		c.assert(o, fmt.Sprintf("(forall ((q$r Int)) (! (=> %s (= (select %s q$r) (select %s q$r))) :pattern ((select %s q$r))))", and(excl...), post, pre, post))
+		sk := c.freshConst("sk$frame", "Int")
+		c.assertG(o, fmt.Sprintf("(forall ((q$r Int)) (! %s :pattern ((select %s q$r))))", mk("q$r"), post), mk(sk))
 	}
 }
 
@@ -335,6 +339,7 @@ func (c *FnCtx) loopHead(li *LoopInfo) {
 	for _, ai := range li.autoInv {
 		c.assume(ai(phiSelf))
 	}
+	c.loopFrame(li)
 	cov := c.oblig(c.loopPrefix(li)+"/cover", "cover", "", false)
 	cov.Cover = true
 	c.assert(cov, "false")
@@ -538,58 +543,105 @@ func (c *FnCtx) rootComps(v ssa.Value, out map[string]bool) {
 	}
 }
 
+// frameBase: for a store address, the component and the loop-invariant object it goes through.
+func (c *FnCtx) frameBase(addr ssa.Value, li *LoopInfo) (comp string, base ssa.Value, ok bool) {
+	outside := func(v ssa.Value) bool {
+		switch x := v.(type) {
+		case *ssa.Parameter, *ssa.FreeVar, *ssa.Const, *ssa.Global:
+			return true
+		case ssa.Instruction:
+			return !li.body[x.Block()]
+		}
+		return false
+	}
+	switch x := addr.(type) {
+	case *ssa.FieldAddr:
+		if c.hasLocStatic(x.X) {
+			return "", nil, false
+		}
+		st := x.X.Type().Underlying().(*types.Pointer).Elem()
+		ft := st.Underlying().(*types.Struct).Field(x.Field).Type()
+		if isStruct(ft) || !outside(x.X) {
+			return "", nil, false
+		}
+		return c.fieldComp(st, x.Field), x.X, true
+	case *ssa.IndexAddr:
+		if s, isS := x.X.Type().Underlying().(*types.Slice); isS && outside(x.X) {
+			return c.elemComp(s.Elem()), x.X, true
+		}
+	}
+	return "", nil, false
+}
+
 func (c *FnCtx) loopModified(li *LoopInfo) {
+	li.frameRefs = map[string][]ssa.Value{}
+	li.frameBad = map[string]bool{}
+	other := map[string]bool{} // components changed by anything other than a direct store
 	for b := range li.body {
 		for _, ins := range b.Instrs {
 			switch x := ins.(type) {
 			case *ssa.Store:
-				c.rootComps(x.Addr, li.mod)
+				if comp, base, ok := c.frameBase(x.Addr, li); ok {
+					li.frameRefs[comp] = append(li.frameRefs[comp], base)
+					li.mod[comp] = true
+				} else {
+					c.rootComps(x.Addr, other)
+				}
 			case *ssa.Alloc:
 				el := x.Type().(*types.Pointer).Elem()
 				if isStruct(el) {
-					c.objectComps(el, li.mod)
+					c.objectComps(el, other)
 				} else if a, ok := el.Underlying().(*types.Array); ok {
-					li.mod[c.elemComp(a.Elem())] = true
+					other[c.elemComp(a.Elem())] = true
 				} else {
-					li.mod[c.cellComp(el)] = true
+					other[c.cellComp(el)] = true
 				}
 			case *ssa.MakeSlice:
-				li.mod[c.elemComp(x.Type().Underlying().(*types.Slice).Elem())] = true
+				other[c.elemComp(x.Type().Underlying().(*types.Slice).Elem())] = true
 			case *ssa.MakeMap:
 				h, v, l := c.mapComps(x.Type().Underlying().(*types.Map))
-				li.mod[h], li.mod[v], li.mod[l] = true, true, true
+				other[h], other[v], other[l] = true, true, true
 			case *ssa.MapUpdate:
 				h, v, l := c.mapComps(x.Map.Type().Underlying().(*types.Map))
-				li.mod[h], li.mod[v], li.mod[l] = true, true, true
+				other[h], other[v], other[l] = true, true, true
 			case *ssa.Convert:
 				if isString(x.X.Type()) && isSlice(x.Type()) {
-					li.mod[c.elemComp(x.Type().Underlying().(*types.Slice).Elem())] = true
+					other[c.elemComp(x.Type().Underlying().(*types.Slice).Elem())] = true
 				}
 			case *ssa.Send:
-				c.chanMods(x.Chan, li.mod)
+				c.chanMods(x.Chan, other)
 			case *ssa.UnOp:
 				if x.Op == token.ARROW {
-					c.chanMods(x.X, li.mod)
+					c.chanMods(x.X, other)
 				}
 			case *ssa.Select:
 				for _, st := range x.States {
-					c.chanMods(st.Chan, li.mod)
+					c.chanMods(st.Chan, other)
 				}
 			case *ssa.Call:
-				if c.callMods(&x.Call, li.mod) {
+				if c.callMods(&x.Call, other) {
 					li.modAll = true
 				}
 			case *ssa.Defer:
-				if c.callMods(&x.Call, li.mod) {
+				if c.callMods(&x.Call, other) {
 					li.modAll = true
 				}
 			case *ssa.RunDefers:
 				for _, d := range c.allDefers() {
-					if c.callMods(&d.Call, li.mod) {
+					if c.callMods(&d.Call, other) {
 						li.modAll = true
 					}
 				}
 			}
+		}
+	}
+	for comp := range other {
+		li.mod[comp] = true
+		li.frameBad[comp] = true
+	}
+	if li.modAll {
+		for comp := range li.frameRefs {
+			li.frameBad[comp] = true
 		}
 	}
 }
@@ -611,5 +663,61 @@ func sortStrings(s []string) {
 		for j := i; j > 0 && s[j] < s[j-1]; j-- {
 			s[j], s[j-1] = s[j-1], s[j]
 		}
+	}
+}
+
+// loopFrame: inferred frame of a loop. A component that the loop changes only through direct
+// stores into objects that exist before the loop is unchanged, at the loop head, for every other
+// object (sound by construction of the static scan in loopModified).
+func (c *FnCtx) loopFrame(li *LoopInfo) {
+	h := li.head
+	var entries []*EdgeVC
+	for i, p := range h.Preds {
+		if c.blocks[p] == nil {
+			continue
+		}
+		e := c.predEdge(h, i)
+		if !e.back {
+			entries = append(entries, e)
+		}
+	}
+	if len(entries) == 0 {
+		return
+	}
+	var comps []string
+	for comp := range li.frameRefs {
+		if !li.frameBad[comp] {
+			comps = append(comps, comp)
+		}
+	}
+	sortStrings(comps)
+	for _, comp := range comps {
+		pre := c.get(entries[0].from.out, comp)
+		same := true
+		for _, e := range entries[1:] {
+			if c.get(e.from.out, comp) != pre {
+				same = false
+			}
+		}
+		if !same {
+			continue
+		}
+		cur := c.get(c.st, comp)
+		if pre == cur {
+			continue
+		}
+		var excl []Term
+		seen := map[string]bool{}
+		for _, v := range li.frameRefs[comp] {
+			t := c.v(v)
+			if isSlice(v.Type()) {
+				t = app("s-ref", t)
+			}
+			if !seen[t] {
+				seen[t] = true
+				excl = append(excl, not(eq("q$r", t)))
+			}
+		}
+		c.assume(fmt.Sprintf("(forall ((q$r Int)) (! (=> %s (= (select %s q$r) (select %s q$r))) :pattern ((select %s q$r))))", and(excl...), cur, pre, cur))
 	}
 }
